@@ -113,7 +113,7 @@ func main() {
 				fail("PANIC", fmt.Sprintf("checker panic: %v\n%s", r, debug.Stack()))
 			}
 		}()
-		p, err := load.Load(load.Options{Dir: *dir, Whole: *tier == "thorough" && !*keysOnly, Overlay: ov})
+		p, err := load.Load(load.Options{Dir: *dir, Whole: (*tier == "thorough" && !*keysOnly) || pr.NeedDeps, Overlay: ov})
 		if err != nil {
 			if *keysOnly {
 				// a variant that does not type-check is discarded by the caller
